@@ -1214,6 +1214,14 @@ def rule_r13(prog, res) -> None:
         raise AnalysisError("C02.R13: the payload read (np.fromfile … .view) of the patch data file was not found")
 
 
+def rule_r14(prog, res) -> None:
+    """the centres a catalog hands out (to assign the records of another catalog to their nearest centre) are in patch-id order: the getters enumerate the patches in one order, not in worker arrival order (= C12.R4)"""
+    from . import c12
+    from .common import shared_rule
+
+    shared_rule(res, c12.rule_r4, "C12", "C12.R4", "C02.R14")
+
+
 RULES = [
     ("C02.R1", rule_r1, QUICK),
     ("C02.R2", rule_r2, QUICK),
@@ -1227,4 +1235,5 @@ RULES = [
     ("C02.R10", rule_r10, QUICK),
     ("C02.R11", rule_r11, QUICK),
     ("C02.R13", rule_r13, QUICK),
+    ("C02.R14", rule_r14, QUICK),
 ]
